@@ -428,10 +428,28 @@ func isBisyncControlCommand(cmd bisyncAofCommand) bool {
 func isBisyncMirroredTransaction(cmds []bisyncAofCommand) bool {
 	// GunYu 自己独占 bisync namespace，因此 mirrored transaction 的最小判定
 	// 只需要确认事务首命令写入 marker。
-	if len(cmds) == 0 {
-		return false
+	// The site's own master may put the removal of the expired previous marker in front of the
+	// marker : a key found expired by the SET is deleted first, and that DEL / UNLINK is
+	// propagated before the command that triggered it.
+	for _, cmd := range cmds {
+		if isBisyncMarkerCommand(cmd) {
+			return true
+		}
+		if !isBisyncMarkerExpiry(cmd) {
+			return false
+		}
 	}
-	return isBisyncMarkerCommand(cmds[0])
+	return false
+}
+
+// isBisyncMarkerExpiry reports whether cmd is the removal of one marker key, as a master
+// propagates it for a marker whose TTL has run out.
+func isBisyncMarkerExpiry(cmd bisyncAofCommand) bool {
+	switch strings.ToLower(cmd.Cmd) {
+	case "del", "unlink":
+		return len(cmd.Args) == 1 && checkpoint.IsBisyncMarkerKey(util.BytesToString(cmd.Args[0]))
+	}
+	return false
 }
 
 func bisyncTxnDebugSummary(cmds []bisyncAofCommand) string {
